@@ -33,6 +33,7 @@ type MapObj struct {
 	Vals  map[string]*Term // component -> Array K τ
 	KeyW  int
 	ValT  types.Type
+	T     *types.Map
 	Own   bool // every value ever stored is an object allocated by this call (engine-maintained: the map is local)
 }
 
@@ -56,9 +57,13 @@ type State struct {
 	globals map[string]int
 	qfActive map[string]bool // quantified-fact symbols that occur in the path condition
 	qdone  map[string]bool
+	bufOld   map[int][]Piece // text of a buffer at the entry of the unit (or, during a contracted call, before the call)
+	entryDone map[string]bool // entry-heap reference reads whose closure fact has been assumed
+	readLog  []traceRead // memory reads made by the code so far (instantiation sites for facts that appear later)
 	trace  *readTrace
 	cut    bool
 	onceDone map[string]bool
+	arrBack  map[string]SliceV // local byte arrays that were sliced: their contents live on the byte heap from then on
 	validCache map[string]bool // conditions proved valid under a prefix of pc
 	invalidAt  map[string]int  // conditions found not valid at this pc length
 	goal   bool   // evaluating a contract clause as a proof goal (Forall may be skolemised)
@@ -84,6 +89,7 @@ var auxTerms sync.Map
 
 var (
 	allQFacts  []*QFact
+	looseQFacts []*QFact // named quantified facts with reads at indices not of the form shift + k
 	qfOfTerm   = map[*Term][]string{} // qf symbols mentioned by a term (cached)
 )
 
@@ -110,7 +116,13 @@ func qfNames(t *Term) []string {
 // instantiate assumes the instances of the active quantified facts (those whose defining symbol occurs in the
 // path condition) that talk about absolute index abs of the memory with base key.
 func (s *State) instantiate(key string, abs *Term) {
-	if s.spec || len(s.qfActive) == 0 {
+	if s.spec {
+		return
+	}
+	if !abs.hasBound {
+		s.readLog = append(s.readLog[:len(s.readLog):len(s.readLog)], traceRead{key, abs})
+	}
+	if len(s.qfActive) == 0 {
 		return
 	}
 	for n, f := range allQFacts {
@@ -126,9 +138,27 @@ func (s *State) instantiate(key string, abs *Term) {
 			continue
 		}
 		s.qdone[id] = true
-		inst := Implies(f.QF, subst(f.Body, f.BV.Leaf, k))
-		auxTerms.Store(inst, true)
-		s.pc = append(s.pc, inst)
+		s.addInst(Implies(f.QF, subst(f.Body, f.BV.Leaf, k)))
+	}
+}
+
+// addInst assumes an instance of a quantified fact. Inner quantifiers that became closed are named and, being new,
+// instantiated at the memory reads made so far.
+func (s *State) addInst(inst *Term) {
+	inst = liftInner(inst)
+	auxTerms.Store(inst, true)
+	s.pc = append(s.pc, inst)
+	for _, n := range qfNames(inst) {
+		if s.qfActive[n] {
+			continue
+		}
+		if s.qfActive == nil {
+			s.qfActive = map[string]bool{}
+		}
+		s.qfActive[n] = true
+		for _, rd := range s.readLog {
+			s.instantiate(rd.key, rd.abs)
+		}
 	}
 }
 
@@ -149,14 +179,32 @@ func newState() *State {
 func (s *State) clone() *State {
 	n := &State{pc: append([]*Term{}, s.pc...), cells: make(map[int]Val, len(s.cells)), heap: make(map[string]*Term, len(s.heap)),
 		objs: make(map[int]Obj, len(s.objs)), text: make(map[string][]Piece, len(s.text)), nalloc: s.nalloc, allocBase: s.allocBase, allocated: append([]*Term{}, s.allocated...), spec: s.spec, assume: s.assume,
-		qdone: map[string]bool{}, trace: s.trace, globals: map[string]int{}, cut: s.cut, goal: s.goal, root: s.root}
+		qdone: map[string]bool{}, readLog: s.readLog, trace: s.trace, globals: map[string]int{}, cut: s.cut, goal: s.goal, root: s.root}
 	for k, v := range s.globals {
 		n.globals[k] = v
+	}
+	if len(s.bufOld) > 0 {
+		n.bufOld = make(map[int][]Piece, len(s.bufOld))
+		for k, v := range s.bufOld {
+			n.bufOld[k] = v
+		}
+	}
+	if len(s.entryDone) > 0 {
+		n.entryDone = make(map[string]bool, len(s.entryDone))
+		for k := range s.entryDone {
+			n.entryDone[k] = true
+		}
 	}
 	if len(s.validCache) > 0 {
 		n.validCache = make(map[string]bool, len(s.validCache))
 		for k := range s.validCache {
 			n.validCache[k] = true
+		}
+	}
+	if len(s.arrBack) > 0 {
+		n.arrBack = make(map[string]SliceV, len(s.arrBack))
+		for k, v := range s.arrBack {
+			n.arrBack[k] = v
 		}
 	}
 	if len(s.onceDone) > 0 {
@@ -395,12 +443,31 @@ func (s *State) freshVal(t types.Type, hint string) Val {
 		}
 		return sv
 	case *types.Pointer:
+		if typeName(u.Elem()) == "bytes.Buffer" {
+			// a buffer owned by the caller: non-nil, holding some text (named, so that contracts can speak of it)
+			freshCtr++
+			old := []Piece{{K: "opaque", ID: freshCtr}}
+			id := s.newObj(&BufObj{Text: old})
+			if s.bufOld == nil {
+				s.bufOld = map[int][]Piece{}
+			}
+			s.bufOld[id] = old
+			return PtrObj{id}
+		}
 		r := Sym(fresh(hint+"_ref"), 64)
 		if !s.noPre {
 			r.Pre = true
 			s.assumeT(ULt(r, alloc0))
 		}
 		return PtrHeap{Ref: r, Root: u.Elem()}
+	case *types.Array:
+		av := ArrayV{T: t}
+		for i := int64(0); i < u.Len(); i++ {
+			av.E = append(av.E, s.freshVal(u.Elem(), fmt.Sprintf("%s_%d", hint, i)))
+		}
+		return av
+	case *types.Map:
+		return MapV{s.newObj(newMapObj(u, true))}
 	case *types.Chan:
 		return ChanV{ID: Sym(fresh(hint+"_chid"), 64), Cap: Sym(fresh(hint+"_chcap"), 64)}
 	case *types.Signature:
